@@ -128,9 +128,43 @@ class Acl(Engine):
                 ops.append(f'add {ty} {perm} {tag} -1 -')
         return ops
 
+    PACK = 4          # scenarios per case: every case costs one fork of the ASan harness
+
     def gen(self, rng, tier):
-        n = 700 if tier == 'quick' else 20000
+        n = 1600 if tier == 'quick' else 24000
+        packed = []
         for i in range(n):
+            packed += self.rt_scenario(rng)
+            if (i + 1) % self.PACK == 0 or i == n - 1:
+                yield Case(f'rt{i}', packed)
+                packed = []
+        yield from self.gen_parse(rng, tier)
+        yield from self.gen_exhaustive(tier)
+
+    def gen_exhaustive(self, tier):
+        """Every string up to a length over the characters the parsers branch on (labelled as a test, not a proof)."""
+        import itertools
+        posix = [58, 44, 10, 32, 35, 117, 100, 114, 45, 48, 111]      # : , \n space # u d r - 0 o
+        nfs4 = [58, 44, 35, 32, 114, 45]                                  # (tag words are too long to enumerate)
+        maxlen = 3 if tier == 'quick' else 5
+        for alpha, want, label in ((posix, 0x100, 'posix'), (nfs4, 0x3c00, 'nfs4')):
+            for wide in (False, True):
+                ops = []
+                for n in range(0, maxlen + 1 if alpha is posix else maxlen):
+                    for t in itertools.product(alpha, repeat=n):
+                        if len(ops) == 0 or len(ops) % 400 == 0:
+                            ops.append('variant ' + ('w' if wide else 'n'))
+                        ops.append(f'{"parse" if wide else "parsenl"} {want} {enc(list(t), wide)}')
+                        if n and t[0] == 117:
+                            ops.append('dump')
+                        if len(ops) >= 6000:
+                            yield Case(f'exh-{label}-{"w" if wide else "n"}', ops)
+                            ops = []
+                if ops:
+                    yield Case(f'exh-{label}-{"w" if wide else "n"}', ops)
+
+    def rt_scenario(self, rng):
+        if True:
             wide = rng.random() < 0.5
             ops = ['variant ' + ('w' if wide else 'n')]
             ops.append('mode %o' % rng.choice([0, 0o644, 0o755, 0o777, 0o100644, 0o40755, rng.randrange(0o10000)]))
@@ -151,8 +185,7 @@ class Acl(Engine):
                     want = DEFAULT if sel == DEFAULT else rng.choice([ACCESS, 0x300])
                     ops.append(f'rt {st | sel} {want}')
             ops.append(f'totext {rng.randrange(32) | rng.choice([0, ACCESS, DEFAULT, 0x300, 1024, 2048])}')
-            yield Case(f'rt{i}', ops)
-        yield from self.gen_parse(rng, tier)
+            return ops
 
     # ---- parser stream -----------------------------------------------------
     def valid_text(self, rng, nfs4):
@@ -214,8 +247,16 @@ class Acl(Engine):
         return ''.join(t)
 
     def gen_parse(self, rng, tier):
-        n = 1500 if tier == 'quick' else 60000
+        n = 3200 if tier == 'quick' else 60000
+        packed = []
         for i in range(n):
+            packed += self.parse_scenario(rng)
+            if (i + 1) % (2 * self.PACK) == 0 or i == n - 1:
+                yield Case(f'parse{i}', packed)
+                packed = []
+
+    def parse_scenario(self, rng):
+        if True:
             wide = rng.random() < 0.4
             ops = ['variant ' + ('w' if wide else 'n')]
             if rng.random() < 0.3:
@@ -241,7 +282,7 @@ class Acl(Engine):
                 else:
                     ops.append(f'{rng.choice(["parse", "parsenl", "parsenl"])} {want} {enc(t, False)}')
                 ops.append('dump')
-            yield Case(f'parse{i}', ops)
+            return ops
 
     # ---- oracle ----------------------------------------------------------
     @staticmethod
@@ -270,6 +311,7 @@ class Acl(Engine):
                 return 'implementation crashed or aborted: ' + o
             if w[0] == 'variant':
                 wide = w[1] == 'w'
+                state = None
             if w[0] == 'dump':
                 state = self.parse_dump(o)
             if w[0] in ('parse', 'parsenl') and not re.fullmatch(r'st=(ok|warn|failed|fatal)', o):
@@ -338,10 +380,11 @@ class Acl(Engine):
         st = {'ops': {}, 'rt_null': 0, 'rt_text': 0, 'rt_in_quantifier_checked': 0, 'rt_hash_names': 0,
               'parse_status': {}, 'parse_entries_after': {}, 'variants': {'n': 0, 'w': 0}, 'styles_seen': set()}
         for c, im in zip(cases, impl):
-            st['variants'][c.ops[0].split()[-1] if c.ops[0].startswith('variant') else 'n'] += 1
             for op, o in zip(c.ops, im):
                 w = op.split()
                 k = w[0]
+                if k == 'variant':
+                    st['variants'][w[1]] += 1
                 st['ops'][k] = st['ops'].get(k, 0) + 1
                 if k == 'rt':
                     st['rt_null' if o == 'null' else 'rt_text'] += 1
